@@ -137,7 +137,7 @@ def _gen_case(seed, tier, index=0):
             opts["holders"] = ["Jane Doe"]
     if rng.chance(0.05):
         opts["holders"] = LONG_HOLDERS[: rng.randint(45, 60)]
-    awkward = rng.randrange(17)
+    awkward = rng.randrange(18)
     if awkward == 0:
         # one holder, several years, given as ready-made notices in ONE invocation (kept verbatim by the tool)
         pfx, h = rng.pick(["Copyright", "SPDX-FileCopyrightText:", "\u00a9", "Copyright (C)"]), rng.pick(A.SAFE_HOLDERS)
@@ -171,6 +171,11 @@ def _gen_case(seed, tier, index=0):
         special_content = '{"a": 1}\n' if name == "m.json" else G.BINARY
         opts["style"] = rng.pick(["python", "c", "html", "cpp", "julia", "lisp"])
         opts.pop("multi_line", None)
+        opts.pop("template", None)
+        extra = []
+    if awkward == 6 and G.can_single(style):
+        # a contributor whose text ends in the very characters that open a comment line in this style
+        opts["contributors"] = [rng.pick(["Cray Research In", "Uptime 100", "Jean-Lu", "Studio"]) + G.STYLES[style][0]]
         opts.pop("template", None)
         extra = []
     if awkward == 5:
@@ -207,7 +212,7 @@ def _gen_case(seed, tier, index=0):
     if foreign_head is not None and not opts.get("force_dot_license"):
         case["world"]["files"][0]["content"] = G.comment(style, foreign_head, multi=not G.can_single(style)) + "\n\n" + G.body_for(style)
         case["body"] = "foreign-notices"
-    if awkward in (1, 5):
+    if awkward in (1, 5, 6):
         case["may_refuse"] = True
     if rng.chance(0.2):
         _cross_seed(case, rng)
@@ -278,6 +283,10 @@ def _cross_seed(case, rng):
 CASE_PAIRS = [("jane doe", "Jane Doe"), ("acme corp.", "ACME Corp."), ("john roe", "John Roe")]
 
 
+def _unrecognised(n):
+    return n.endswith((".txt", ".mod", ".cfg", ".example", ".dist", ".sample", ".orig2")) and not n.endswith(("CMakeLists.txt", "go.mod", "setup.cfg"))
+
+
 def _gen_multi(seed, rng):
     """Several files, each first annotated on its own (set-up steps, not judged), then the same command over all
     of them N times. The tool iterates a set of paths, so the processing order follows the hash seed."""
@@ -295,6 +304,12 @@ def _gen_multi(seed, rng):
         for j, g in enumerate(group):
             names.append(f"g{j}/{g}")
             files.append({"path": f"g{j}/{g}", "content": "content of " + g + "\n"})
+    if rng.chance(0.25):
+        # names with stacked suffixes: the last one decides the type (none is known here), the inner ones must not - least
+        # of all differently from one process to the next
+        for j, g in enumerate(rng.sample(["values.yaml.j2.example", "site.html.j2.dist", "conf.py.in.sample", "main.c.py.orig2"], rng.randint(1, 2))):
+            names.append(f"s{j}/{g}")
+            files.append({"path": f"s{j}/{g}", "content": "content of " + g + "\n"})
     steps = []
     clocks = _clocks(rng, 12)
     flavour = rng.pick(["holders", "holders", "case-variants", "merge-tie", "plain"])
@@ -310,10 +325,12 @@ def _gen_multi(seed, rng):
             if flavour == "merge-tie":
                 so["prefix"] = rng.pick(["string", "string-c", "symbol", "spdx-symbol"])
                 so["years"] = ["2020"]
+            if _unrecognised(n):
+                so["fallback_dot_license"] = True
             steps.append({"argv": ["--no-multiprocessing"] + A.argv_of(so, [n]), "clock": clocks[ci], "phase": "setup"})
             ci += 1
     opts = {"holders": rng.sample(A.SAFE_HOLDERS, rng.randint(0, 2)), "licenses": rng.sample(A.LICENSES[:5], rng.randint(1, 2)), "years": ["2020"]}
-    if any(n.endswith((".txt", ".mod", ".cfg")) and not n.endswith(("CMakeLists.txt", "go.mod", "setup.cfg")) for n in names):
+    if any(_unrecognised(n) for n in names):
         opts["fallback_dot_license"] = True  # unrecognised types among the files
     if flavour == "case-variants":
         opts["holders"] = [p[1] for p in CASE_PAIRS[:2]]
